@@ -289,3 +289,46 @@ theorem mem_keys_foldl_btInsert (ops m : List (Bytes × Bytes)) (k : Bytes) :
     · rintro (h | h | h) <;> simp [h]
     · rintro ((h | h) | h) <;> simp [h]
 end Ructe
+
+namespace Ructe
+open Nom
+
+/-- strictly ascending keys are pairwise distinct -/
+theorem StrictSorted.nodup {l : List Bytes} (h : StrictSorted l) : l.Nodup := by
+  have hp := (strictSorted_iff_pairwise l).mp h
+  exact hp.imp (fun hab => bytesLt_ne hab)
+
+/-- after a fold of inserts, `btGet k` is `some u` as soon as `k` was inserted (or was already mapped
+to `u`) and every insertion under `k` carried `u` -/
+theorem btGet_foldl_btInsert_gen (ops m : List (Bytes × Bytes)) (k u : Bytes)
+    (hex : k ∈ ops.map (·.1) ∨ btGet k m = some u) (hall : ∀ p ∈ ops, p.1 = k → p.2 = u) :
+    btGet k (ops.foldl (fun m kv => btInsert kv.1 kv.2 m) m) = some u := by
+  induction ops generalizing m with
+  | nil =>
+    rcases hex with h | h
+    · simp at h
+    · exact h
+  | cons x r ih =>
+    simp only [List.foldl_cons]
+    apply ih
+    · by_cases hx : x.1 = k
+      · right
+        have hv := hall x (List.mem_cons_self) hx
+        rw [hx, hv]
+        exact btGet_btInsert_self _ _ _
+      · rcases hex with h | h
+        · simp only [List.map_cons, List.mem_cons] at h
+          rcases h with h | h
+          · exact absurd h.symm hx
+          · left; exact h
+        · right
+          rw [btGet_btInsert_ne _ _ _ _ (fun e => hx e.symm)]
+          exact h
+    · intro p hp
+      exact hall p (List.mem_cons_of_mem _ hp)
+
+theorem btGet_foldl_btInsert (ops m : List (Bytes × Bytes)) (k u : Bytes)
+    (hex : k ∈ ops.map (·.1)) (hall : ∀ p ∈ ops, p.1 = k → p.2 = u) :
+    btGet k (ops.foldl (fun m kv => btInsert kv.1 kv.2 m) m) = some u :=
+  btGet_foldl_btInsert_gen ops m k u (Or.inl hex) hall
+end Ructe
